@@ -50,7 +50,7 @@ def obligations_for(pid):
     return json.load(open(p)).get(pid)
 
 
-def lean_check(pid, log):
+def lean_check(pid, log, recheck=False):
     """build the property's proof module, audit axioms of each listed theorem.
     -> dict(obligations, discharged, failures[list of str], checker_cmd, theorems, axioms)"""
     ob = obligations_for(pid)
@@ -102,6 +102,14 @@ def lean_check(pid, log):
             res['discharged'] += 1
     if hits:
         res['discharged'] = 0
+    if recheck:
+        # thorough tier: replay the compiled module through the toolchain's independent kernel re-checker
+        r = subprocess.run(['lake', 'env', 'leanchecker', module], cwd=LEAN, capture_output=True, text=True)
+        res['checker_cmd'] += f' && lake env leanchecker {module}'
+        res['leanchecker'] = 'ok' if r.returncode == 0 else 'FAILED'
+        if r.returncode != 0:
+            res['failures'].append(f'leanchecker rejects {module}: ' + (r.stdout + r.stderr)[-800:])
+            res['discharged'] = 0
     return res
 
 
@@ -157,7 +165,7 @@ class Check:
         self.mismatches.append({'what': what, 'case': case, 'observed': observed})
 
     def run_lean(self):
-        self.lean = lean_check(self.pid, None)
+        self.lean = lean_check(self.pid, None, recheck=(self.tier == 'thorough'))
         self.theorem_failures = list(self.lean['failures'])
         return self.lean
 
@@ -202,6 +210,8 @@ class Check:
             cov.update({'obligations': self.lean['obligations'], 'discharged': self.lean['discharged'],
                         'checker_cmd': self.lean['checker_cmd'] or 'n/a', 'theorems': self.lean['theorems'],
                         'axioms': self.lean['axioms']})
+            if 'leanchecker' in self.lean:
+                cov['leanchecker'] = self.lean['leanchecker']
         if explanation:
             cov['explanation'] = explanation
         if extra_cov:
